@@ -53,6 +53,8 @@ pub struct Ctl {
     /// set when a model enumeration was cut (exploration then not exhaustive)
     pub cut: bool,
     pub keep_clauses: bool,
+    /// when set, scripted choices beyond the script are drawn from this seeded generator
+    pub rand_state: Option<u64>,
 }
 
 pub type Shared = Rc<RefCell<Ctl>>;
@@ -73,6 +75,7 @@ impl Ctl {
             model_cap: 96,
             cut: false,
             keep_clauses: true,
+            rand_state: None,
         }))
     }
 }
@@ -216,7 +219,19 @@ impl SatSolver for ObsSat {
                         c.cut = true;
                     }
                     let pos = c.used.len();
-                    let mut idx = if pos < c.script.len() { c.script[pos] } else { 0 };
+                    let mut idx = if pos < c.script.len() {
+                        c.script[pos]
+                    } else if let Some(st) = c.rand_state {
+                        // xorshift64*
+                        let mut x = st;
+                        x ^= x >> 12;
+                        x ^= x << 25;
+                        x ^= x >> 27;
+                        c.rand_state = Some(x);
+                        (x.wrapping_mul(0x2545F4914F6CDD1D) >> 33) as usize % models.len()
+                    } else {
+                        0
+                    };
                     if idx >= models.len() {
                         idx = models.len() - 1;
                     }
